@@ -92,3 +92,18 @@ class P2b:
 
 
 CLASSES.update({"P1b": P1b, "P2b": P2b})
+
+
+class Excl:
+    """a class that de-selects one constructor argument from its identifier (the hook GridSearch uses)"""
+    __exclude_identifier_fields__ = ("skip",)
+
+    def __init__(self, alpha=1.0, beta=2.0, gamma=3.0, skip=0.0, delta=4.0, epsilon=5.0, zeta=6.0, eta=7.0):
+        self.alpha = alpha
+        self.beta = beta
+        self.gamma = gamma
+        self.skip = skip
+        self.delta = delta
+        self.epsilon = epsilon
+        self.zeta = zeta
+        self.eta = eta
